@@ -42,6 +42,9 @@ type Contract struct {
 	Modifies   []*Clause
 	PanicsWhen []*Clause
 	Loops      map[string][]*Clause
+	Callbacks  map[string][]*Clause // function-typed parameter -> cb-requires / cb-modifies / cb-ensures
+	Spawns     map[string][]*Clause // go statement ordinal -> requires on the spawned literal's arguments
+	Ghosts     []GhostParam
 	Inline     bool
 	Trusted    bool // contract assumed, body not verified (listed as assumption)
 	NoFrame    bool
@@ -50,8 +53,14 @@ type Contract struct {
 	allocates  bool
 	checkFrame bool
 	noReturnOK bool
+	readsClock bool
 	File       string
 	used       bool
+}
+
+type GhostParam struct {
+	Name string
+	Type string // Go type text
 }
 
 type Lemma struct {
@@ -88,10 +97,89 @@ func parseContractFile(fset *token.FileSet, f *ast.File, pkgPath string) ([]*Con
 	}
 	var cons []*Contract
 	var lemmas []*Lemma
+	type predDef struct {
+		name   string
+		params []string
+		body   string
+	}
+	var preds []predDef
+	expand := func(text string) string {
+		for iter := 0; iter < 6; iter++ {
+			changed := false
+			for _, pd := range preds {
+				for {
+					idx := findCall(text, pd.name)
+					if idx < 0 {
+						break
+					}
+					open := idx + len(pd.name)
+					depth := 0
+					end := -1
+					for k := open; k < len(text); k++ {
+						if text[k] == '(' {
+							depth++
+						} else if text[k] == ')' {
+							depth--
+							if depth == 0 {
+								end = k
+								break
+							}
+						}
+					}
+					if end < 0 {
+						break
+					}
+					args := splitTop(text[open+1:end], ",")
+					body := pd.body
+					if len(args) == len(pd.params) {
+						for i, prm := range pd.params {
+							body = regexp.MustCompile(`\b`+regexp.QuoteMeta(prm)+`\b`).ReplaceAllLiteralString(body, "("+strings.TrimSpace(args[i])+")")
+						}
+					}
+					text = text[:idx] + "(" + body + ")" + text[end+1:]
+					changed = true
+				}
+			}
+			if !changed {
+				break
+			}
+		}
+		return text
+	}
+	defer func() {
+		for _, c := range cons {
+			var all []*Clause
+			all = append(all, c.Requires...)
+			all = append(all, c.Ensures...)
+			all = append(all, c.Entries...)
+			all = append(all, c.PanicsWhen...)
+			for _, l := range c.Loops {
+				all = append(all, l...)
+			}
+			for _, l := range c.Callbacks {
+				all = append(all, l...)
+			}
+			for _, l := range c.Spawns {
+				all = append(all, l...)
+			}
+			for _, cl := range all {
+				cl.Text = expand(cl.Text)
+			}
+		}
+		for _, l := range lemmas {
+			for i := range l.Requires {
+				l.Requires[i] = expand(l.Requires[i])
+			}
+			for i := range l.Ensures {
+				l.Ensures[i] = expand(l.Ensures[i])
+			}
+		}
+	}()
 	var cur *Contract
 	var curL *Lemma
 	var last *Clause
 	var lastL *[]string
+	lastPred := -1
 	for _, ln := range lines {
 		t := ln.text
 		if t == "" {
@@ -107,10 +195,30 @@ func parseContractFile(fset *token.FileSet, f *ast.File, pkgPath string) ([]*Con
 			if i := strings.Index(tgt, " "); i >= 0 && !strings.HasPrefix(tgt, "(") {
 				tgt = tgt[:i]
 			}
-			cur = &Contract{Target: normTarget(tgt), Loops: map[string][]*Clause{}, File: ln.pos, checkFrame: true}
+			cur = &Contract{Target: normTarget(tgt), Loops: map[string][]*Clause{}, Callbacks: map[string][]*Clause{}, Spawns: map[string][]*Clause{}, File: ln.pos, checkFrame: true}
 			cons = append(cons, cur)
 			curL = nil
 			last = nil
+			continue
+		case "pred":
+			// pred name(a, b) = body      (textual macro; continuation lines with "|")
+			eq := strings.Index(rest, "=")
+			i := strings.Index(rest, "(")
+			j := strings.Index(rest, ")")
+			if eq < 0 || i < 0 || j < i || j > eq {
+				return nil, nil, fmt.Errorf("%s: pred name(params) = body", ln.pos)
+			}
+			var ps []string
+			for _, x := range strings.Split(rest[i+1:j], ",") {
+				if x = strings.TrimSpace(x); x != "" {
+					ps = append(ps, x)
+				}
+			}
+			preds = append(preds, predDef{name: strings.TrimSpace(rest[:i]), params: ps, body: strings.TrimSpace(rest[eq+1:])})
+			cur = nil
+			curL = nil
+			last = nil
+			lastPred = len(preds) - 1
 			continue
 		case "lemma":
 			i := strings.Index(rest, "(")
@@ -125,6 +233,10 @@ func parseContractFile(fset *token.FileSet, f *ast.File, pkgPath string) ([]*Con
 			continue
 		case "|":
 			// continuation line
+			if lastPred >= 0 && last == nil && curL == nil && cur == nil {
+				preds[lastPred].body += " " + rest
+				continue
+			}
 			if last != nil {
 				last.Text += " " + rest
 			} else if lastL != nil && len(*lastL) > 0 {
@@ -187,10 +299,34 @@ func parseContractFile(fset *token.FileSet, f *ast.File, pkgPath string) ([]*Con
 			c := &Clause{Kind: parts[1], Ord: parts[0], Text: strings.TrimSpace(parts[2]), Line: ln.pos}
 			last = c
 			cur.Loops[parts[0]] = append(cur.Loops[parts[0]], c)
+		case "go":
+			parts := strings.SplitN(rest, " ", 3)
+			if len(parts) != 3 || parts[1] != "requires" {
+				return nil, nil, fmt.Errorf("%s: go <ord> requires <expr>", ln.pos)
+			}
+			c := &Clause{Kind: "go-requires", Ord: parts[0], Text: strings.TrimSpace(parts[2]), Line: ln.pos}
+			last = c
+			cur.Spawns[parts[0]] = append(cur.Spawns[parts[0]], c)
+		case "ghostparam":
+			parts := strings.SplitN(rest, " ", 2)
+			if len(parts) != 2 {
+				return nil, nil, fmt.Errorf("%s: ghostparam <name> <type>", ln.pos)
+			}
+			cur.Ghosts = append(cur.Ghosts, GhostParam{parts[0], strings.TrimSpace(parts[1])})
+		case "callback":
+			parts := strings.SplitN(rest, " ", 3)
+			if len(parts) != 3 || (parts[1] != "requires" && parts[1] != "modifies" && parts[1] != "ensures") {
+				return nil, nil, fmt.Errorf("%s: callback <param> requires|modifies|ensures <expr>", ln.pos)
+			}
+			c := &Clause{Kind: "cb-" + parts[1], Name: parts[0], Text: strings.TrimSpace(parts[2]), Line: ln.pos}
+			last = c
+			cur.Callbacks[parts[0]] = append(cur.Callbacks[parts[0]], c)
 		case "inline":
 			cur.Inline = true
 		case "trusted":
 			cur.Trusted = true
+		case "clock":
+			cur.readsClock = true
 		case "noframe":
 			cur.checkFrame = false
 		case "noreturn":
@@ -206,6 +342,22 @@ func parseContractFile(fset *token.FileSet, f *ast.File, pkgPath string) ([]*Con
 		}
 	}
 	return cons, lemmas, nil
+}
+
+// findCall returns the index of an occurrence of name followed by "(" at a word boundary, or -1.
+func findCall(text, name string) int {
+	from := 0
+	for {
+		i := strings.Index(text[from:], name+"(")
+		if i < 0 {
+			return -1
+		}
+		i += from
+		if i == 0 || !isIdentChar(text[i-1]) && text[i-1] != '.' {
+			return i
+		}
+		from = i + 1
+	}
 }
 
 func normTarget(t string) string {
@@ -302,6 +454,22 @@ func rewriteSpec(s string) (string, error) {
 			k--
 		}
 		word := s[k:i]
+		if c == '(' && word == "all" {
+			args := splitTop(inner, ",")
+			if len(args) < 2 {
+				return "", fmt.Errorf("all(k, body) expected in %q", s)
+			}
+			body, err := rewriteSpec(strings.Join(args[1:], ","))
+			if err != nil {
+				return "", err
+			}
+			cur := out.String()
+			out.Reset()
+			out.WriteString(cur[:len(cur)-len(word)])
+			fmt.Fprintf(&out, "all__(func(%s int) bool { return %s })", strings.TrimSpace(args[0]), body)
+			i = j
+			continue
+		}
 		if c == '(' && (word == "forall" || word == "exists") {
 			args := splitTop(inner, ",")
 			if len(args) < 4 {
@@ -448,6 +616,21 @@ func (vc *VC) findLoop(fi *FuncInfo, ord string) ast.Stmt {
 	return found
 }
 
+func (vc *VC) findGo(fi *FuncInfo, ord string) *ast.GoStmt {
+	var found *ast.GoStmt
+	n := 0
+	ast.Inspect(fi.Decl.Body, func(x ast.Node) bool {
+		if g, ok := x.(*ast.GoStmt); ok {
+			if fmt.Sprint(n) == ord && found == nil {
+				found = g
+			}
+			n++
+		}
+		return true
+	})
+	return found
+}
+
 func (vc *VC) compileClause(fi *FuncInfo, c *Clause) {
 	if c.compiled {
 		return
@@ -463,7 +646,21 @@ func (vc *VC) compileClause(fi *FuncInfo, c *Clause) {
 	}
 	var params []string
 	pos := fi.Decl.Name.Pos()
-	if c.Kind == "invariant" || c.Kind == "decreases" {
+	if c.Kind == "go-requires" {
+		gs := vc.findGo(fi, c.Ord)
+		if gs == nil {
+			fail("no go statement with ordinal %s in %s", c.Ord, fi.Short)
+			return
+		}
+		pos = gs.Pos()
+		if lit, ok := gs.Call.Fun.(*ast.FuncLit); ok {
+			for _, pf := range lit.Type.Params.List {
+				for _, pn := range pf.Names {
+					params = append(params, pn.Name+" "+nodeText(vc.fset, pf.Type))
+				}
+			}
+		}
+	} else if c.Kind == "invariant" || c.Kind == "decreases" {
 		loop := vc.findLoop(fi, c.Ord)
 		if loop == nil {
 			fail("no loop with ordinal %s in %s", c.Ord, fi.Short)
@@ -476,7 +673,38 @@ func (vc *VC) compileClause(fi *FuncInfo, c *Clause) {
 			pos = l.Body.Lbrace + 1
 		}
 	} else {
-		params = vc.paramDecls(fi, c.Kind != "requires" && c.Kind != "entry" && c.Kind != "panics")
+		params = vc.paramDecls(fi, c.Kind != "requires" && c.Kind != "entry" && c.Kind != "panics" && !strings.HasPrefix(c.Kind, "cb-"))
+	}
+	if fi.Con != nil {
+		for _, g := range fi.Con.Ghosts {
+			params = append(params, g.Name+" "+g.Type)
+		}
+	}
+	if strings.HasPrefix(c.Kind, "cb-") {
+		// the callback's own parameters, as named in the function type of the parameter
+		found := false
+		for _, fld := range fi.Decl.Type.Params.List {
+			for _, n := range fld.Names {
+				if n.Name != c.Name {
+					continue
+				}
+				ft, ok := fld.Type.(*ast.FuncType)
+				if !ok {
+					fail("%s is not a function-typed parameter", c.Name)
+					return
+				}
+				found = true
+				for _, pf := range ft.Params.List {
+					for _, pn := range pf.Names {
+						params = append(params, pn.Name+" "+nodeText(vc.fset, pf.Type))
+					}
+				}
+			}
+		}
+		if !found {
+			fail("no parameter %s", c.Name)
+			return
+		}
 	}
 	// entry names (only those compiled before this clause)
 	if fi.Con != nil {
@@ -493,12 +721,10 @@ func (vc *VC) compileClause(fi *FuncInfo, c *Clause) {
 			params = append(params, e.Name+" "+types.TypeString(et, vc.qualifierFor(fi)))
 		}
 	}
-	if c.Kind == "invariant" {
-		params = append(params, "visited map[int]bool")
-	}
+
 	var src string
-	switch c.Kind {
-	case "modifies":
+ 	switch c.Kind {
+	case "modifies", "cb-modifies":
 		src = "func(" + strings.Join(params, ", ") + ") []any { return []any{" + text + "} }"
 	case "entry", "decreases":
 		src = "func(" + strings.Join(params, ", ") + ") any { return " + text + " }"
@@ -525,7 +751,7 @@ func (vc *VC) compileClause(fi *FuncInfo, c *Clause) {
 		}
 	}
 	ret := c.Lit.Body.List[0].(*ast.ReturnStmt).Results[0]
-	if c.Kind == "modifies" {
+	if c.Kind == "modifies" || c.Kind == "cb-modifies" {
 		c.Exprs = ret.(*ast.CompositeLit).Elts
 	} else {
 		c.Expr = ret
@@ -726,6 +952,9 @@ func (ex *Exec) evalSpecFunc(name string, call *ast.CallExpr, st *State) []Value
 		ex.boundObjs = ex.boundObjs[:len(ex.boundObjs)-1]
 		guard := mkAnd(mkCmp("le", lo, bv), mkCmp("lt", bv, hi))
 		side := mkAnd(sub.pc[npc:]...)
+		if ex.assuming > 0 {
+			side = tTrue
+		}
 		var full *Term
 		if name == "forall__" {
 			full = mkImplies(mkAnd(guard, side), body)
@@ -744,6 +973,45 @@ func (ex *Exec) evalSpecFunc(name string, call *ast.CallExpr, st *State) []Value
 			pats = append(pats, []*Term{t})
 		}
 		return []Value{boolV(mkQuant(qop, []*Term{bv}, full, pats...))}
+	case "all__":
+		lit := call.Args[0].(*ast.FuncLit)
+		info := ex.info()
+		pid := lit.Type.Params.List[0].Names[0]
+		obj := info.Defs[pid]
+		bv := freshVar(pid.Name, sortInt)
+		sub := st.clone()
+		npc := len(sub.pc)
+		sub.env[obj] = scalarV(types.Typ[types.Int], bv)
+		ex.boundObjs = append(ex.boundObjs, obj)
+		body := ex.eval(lit.Body.List[0].(*ast.ReturnStmt).Results[0], sub).scalar()
+		ex.boundObjs = ex.boundObjs[:len(ex.boundObjs)-1]
+		side := mkAnd(sub.pc[npc:]...)
+		if ex.assuming > 0 {
+			// representation invariants of values read under the binder hold for every index: no hypothesis needed when the formula is assumed
+			side = tTrue
+		}
+		full := mkImplies(side, body)
+		var pats [][]*Term
+		for _, t := range selectsOn(full, bv) {
+			pats = append(pats, []*Term{t})
+		}
+		return []Value{boolV(mkQuant("forall", []*Term{bv}, full, pats...))}
+	case "refof":
+		v := ex.eval(call.Args[0], st)
+		r := v.L[""]
+		if r == nil {
+			r = v.L[".ref"]
+		}
+		return []Value{scalarV(mathintType, r)}
+	case "visited":
+		k := ex.eval(call.Args[0], st).scalar()
+		vv, ok := ex.frame().entry["visited"]
+		if !ok {
+			unsupp("visited() outside a map range loop invariant")
+		}
+		return []Value{boolV(mkSelect(vv.scalar(), k))}
+	case "lastnow":
+		return []Value{ex.lastNow(st)}
 	case "floordiv", "floormod":
 		a := ex.eval(call.Args[0], st).scalar()
 		b := ex.eval(call.Args[1], st).scalar()
@@ -770,6 +1038,29 @@ func (ex *Exec) evalSpecFunc(name string, call *ast.CallExpr, st *State) []Value
 		mt := m.T.Underlying().(*types.Map)
 		k := ex.convertTo(ex.eval(call.Args[1], st), mt.Key(), st).scalar()
 		return []Value{boolV(mkAnd(mkNot(mkEq(m.scalar(), mkInt(sortRef, 0))), st.mapHas(m.T, m.scalar(), k)))}
+	case "same":
+		a := ex.eval(call.Args[0], st)
+		b := ex.eval(call.Args[1], st)
+		var cs []*Term
+		for _, pth := range a.paths() {
+			x, y := a.L[pth], b.L[pth]
+			if y == nil {
+				unsupp("same(): shapes differ")
+			}
+			if x.Sort.K == SArray {
+				n := arrayLenAt(a.T, pth)
+				if n < 0 || n > 64 {
+					unsupp("same() on large arrays")
+				}
+				for i := int64(0); i < n; i++ {
+					ix := mkInt(sortInt, i)
+					cs = append(cs, mkEq(mkSelect(x, ix), mkSelect(y, ix)))
+				}
+				continue
+			}
+			cs = append(cs, mkEq(x, y))
+		}
+		return []Value{boolV(mkAnd(cs...))}
 	case "sameslice":
 		a := ex.eval(call.Args[0], st)
 		b := ex.eval(call.Args[1], st)
